@@ -35,6 +35,7 @@ import (
 	"google.golang.org/grpc/connectivity"
 	"google.golang.org/grpc/credentials/insecure"
 	"google.golang.org/grpc/test/bufconn"
+	"google.golang.org/protobuf/proto"
 
 	"github.com/GoogleCloudPlatform/grpc-gcp-go/grpcgcp/multiendpoint"
 	pb "github.com/GoogleCloudPlatform/grpc-gcp-go/grpcgcp/grpc_gcp"
@@ -46,6 +47,7 @@ type gmeHarness struct {
 	dials  map[string]int
 	fail   map[string]bool
 	apiCfg *pb.ApiConfig
+	ctorCfg *pb.ApiConfig            // a private copy of the configuration the object was constructed with
 	optsObj *GCPMultiEndpointOptions // the application's options object, edited in place between calls
 
 	// live endpoint ("live..." targets) and slow dial ("slow" target) of the livemon scenario
@@ -304,8 +306,15 @@ func (h *gmeHarness) digest() string {
 		ds = append(ds, fmt.Sprintf("%s:%d", e, n))
 	}
 	sort.Strings(ds)
-	return fmt.Sprintf("mes=%s pools=%s default=%s open=%d monitors=%d dials=%s", strings.Join(mes, ";"), strings.Join(pools, "+"),
-		g.defaultName, open, mons, strings.Join(ds, "+"))
+	// C17: GCPConfig() is an equal deep copy of the configuration given at construction, whatever later updates carried
+	cfg := "ok"
+	if got := g.GCPConfig(); !proto.Equal(got, h.ctorCfg) {
+		cfg = "changed"
+	} else if got != nil && (got == h.apiCfg || got == g.gcpConfig) {
+		cfg = "aliased"
+	}
+	return fmt.Sprintf("mes=%s pools=%s default=%s open=%d monitors=%d dials=%s gcpcfg=%s", strings.Join(mes, ";"), strings.Join(pools, "+"),
+		g.defaultName, open, mons, strings.Join(ds, "+"), cfg)
 }
 
 func gmeParseOpts(s string) map[string]*multiendpoint.MultiEndpointOptions {
@@ -384,10 +393,19 @@ func (h *gmeHarness) exec(line string) (out string) {
 			g, err = NewGCPMultiEndpoint(o)
 			if err == nil {
 				h.gme = g
+				h.ctorCfg = proto.Clone(h.apiCfg).(*pb.ApiConfig)
 			}
 		} else {
 			if h.gme == nil {
 				return "bad-op"
+			}
+			// a reconfiguration usually carries no pool configuration at all, or whatever the caller has at hand:
+			// the configuration was fixed at construction
+			switch len(a["opts"]) % 3 {
+			case 0:
+				o.GRPCgcpConfig = nil
+			case 1:
+				o.GRPCgcpConfig = &pb.ApiConfig{ChannelPool: &pb.ChannelPoolConfig{MinSize: 3, MaxSize: 9}}
 			}
 			err = h.gme.UpdateMultiEndpoints(o)
 		}
